@@ -393,7 +393,7 @@ const rule = "MannWhitneyUTest laws on generated pairs of samples (sizes 0..60, 
 	"errors exactly as stated, N1,N2, U = pair count, 0<=P<=1, arguments bit-identical afterwards, bit-identical results under " +
 	"permutation and under a second strictly increasing assignment of the levels, swap law, P vs the stated normal approximation " +
 	"(independent erfc evaluation, 1e-12) above the limits and vs the exact 128-bit reference (1e-9) below them. Non-trivial: " +
-	"both samples non-empty and not all equal; distinct = different canonical JSON of the case."
+	"both samples non-empty and not all equal; distinct = different canonical JSON of the case. Later additions: samples as windows of one backing array, prefix pairs, sibling histories, two neighbouring values turned into -0 and +0."
 
 func drawCase(t *rapid.T) *Case {
 	limits := []int{50, 25, 0, 5, 30, 1000}
